@@ -1251,4 +1251,300 @@ theorem cover_numeric_sound (fuel n : Nat) (env : Env) (hoas : env.oas = Oas.non
           exact sound_guard (sound_negArm_numeric hoas hp hparse hm)
         · exact sound_nil
 
+/-! ### derived length schemas (`{**schema, "minLength": a, "maxLength": b}`) -/
+
+theorem lookup_setKey_eq (k : String) (v : Json) (kvs : List (String × Json)) :
+    Json.lookup k (setKey k v kvs) = some v := by
+  induction kvs with
+  | nil => simp [setKey, Json.lookup]
+  | cons p rest ih =>
+    obtain ⟨a, b⟩ := p
+    simp only [setKey]
+    by_cases h : a = k
+    · subst h; simp [Json.lookup]
+    · have h1 : (a == k) = false := by simpa using h
+      have h2 : (k == a) = false := by simpa using (fun e : k = a => h e.symm)
+      simp [h1, Json.lookup, h2, ih]
+
+theorem lookup_setKey_ne (k k' : String) (v : Json) (kvs : List (String × Json)) (h : k' ≠ k) :
+    Json.lookup k' (setKey k v kvs) = Json.lookup k' kvs := by
+  have hk : (k' == k) = false := by simpa using h
+  induction kvs with
+  | nil => simp [setKey, Json.lookup, hk]
+  | cons p rest ih =>
+    obtain ⟨a, b⟩ := p
+    simp only [setKey]
+    by_cases ha : a = k
+    · subst ha; simp [Json.lookup, hk]
+    · have h1 : (a == k) = false := by simpa using ha
+      simp only [h1, Bool.false_eq_true, if_false, Json.lookup]
+      by_cases hka : (k' == a) = true
+      · simp [hka]
+      · simp [hka, ih]
+
+/-- the two schemas agree on every keyword except the listed ones -/
+def SameExcept (keys : List String) (kvs kvs' : List (String × Json)) : Prop :=
+  ∀ k, k ∉ keys → Json.lookup k kvs' = Json.lookup k kvs
+
+theorem sameExcept_setKey {keys kvs kvs' k v} (h : SameExcept keys kvs kvs') (hk : k ∈ keys) :
+    SameExcept keys kvs (setKey k v kvs') := by
+  intro k' hk'
+  have : k' ≠ k := by intro e; subst e; exact hk' hk
+  rw [lookup_setKey_ne k k' v kvs' this]; exact h k' hk'
+
+theorem sameExcept_refl (keys kvs) : SameExcept keys kvs kvs := fun _ _ => rfl
+
+/-- a value valid for a schema that differs only in its length keywords is valid for the schema itself as soon as
+    it meets the schema's own length bounds -/
+theorem validF_of_lengths {fuel env kvs kvs' v} (hoas : env.oas = Oas.none)
+    (hs : SameExcept ["minLength", "maxLength"] kvs kvs')
+    (hv : validF (fuel + 1) env (.obj kvs') v = true)
+    (hlen : ∀ s, v = .str s → lenBoundsOk kvs "minLength" "maxLength" s.length = true) :
+    validF (fuel + 1) env (.obj kvs) v = true := by
+  have L : ∀ k, k ∉ ["minLength", "maxLength"] → Json.lookup k kvs' = Json.lookup k kvs := hs
+  have e1 := L "$ref" (by decide)
+  have e2 := L "type" (by decide)
+  have e3 := L "enum" (by decide)
+  have e4 := L "const" (by decide)
+  have e5 := L "minimum" (by decide)
+  have e6 := L "maximum" (by decide)
+  have e7 := L "exclusiveMinimum" (by decide)
+  have e8 := L "exclusiveMaximum" (by decide)
+  have e9 := L "multipleOf" (by decide)
+  have e10 := L "pattern" (by decide)
+  have e11 := L "format" (by decide)
+  have e12 := L "uniqueItems" (by decide)
+  have e13 := L "items" (by decide)
+  have e14 := L "minItems" (by decide)
+  have e15 := L "maxItems" (by decide)
+  have e16 := L "properties" (by decide)
+  have e17 := L "patternProperties" (by decide)
+  have e18 := L "required" (by decide)
+  have e19 := L "minProperties" (by decide)
+  have e20 := L "maxProperties" (by decide)
+  have e21 := L "additionalProperties" (by decide)
+  have e22 := L "allOf" (by decide)
+  have e23 := L "anyOf" (by decide)
+  have e24 := L "oneOf" (by decide)
+  have e25 := L "not" (by decide)
+  simp only [validF, isNullable_none hoas, e1] at hv ⊢
+  have key : keywordsOk env (validF fuel env) kvs' v = true → keywordsOk env (validF fuel env) kvs v = true := by
+    intro hk
+    simp only [keywordsOk, typeOk, enumOk, constOk, numberOk, minimumOk, maximumOk, multipleOfOk, formatOk, arrayOk, objectOk,
+      combinatorsOk, lenBoundsOk, natKw, propsOf, patternPropsOf, requiredOf, stringOk,
+      e2, e3, e4, e5, e6, e7, e8, e9, e10, e11, e12, e13, e14, e15, e16, e17, e18, e19, e20, e21, e22, e23, e24, e25,
+      Bool.and_eq_true] at hk ⊢
+    obtain ⟨⟨⟨⟨⟨⟨⟨⟨h1, h2⟩, h3⟩, h4⟩, h5⟩, h6⟩, h7⟩, h8⟩, h9⟩ := hk
+    refine ⟨⟨⟨⟨⟨⟨⟨⟨h1, h2⟩, h3⟩, h4⟩, ?_⟩, h6⟩, h7⟩, h8⟩, h9⟩
+    cases v with
+    | str s =>
+      have := hlen s rfl
+      simp only [lenBoundsOk, natKw, Bool.and_eq_true] at this
+      simp only at h5 ⊢
+      simp only [Bool.and_eq_true] at h5 ⊢
+      exact ⟨this, h5.2⟩
+    | _ => trivial
+  cases hr : Json.lookup "$ref" kvs with
+  | none => simp only [hr, Bool.false_and, Bool.false_eq_true, if_false] at hv ⊢; exact key hv
+  | some r =>
+    cases r <;> simp only [hr, Bool.false_and, Bool.false_eq_true, if_false] at hv ⊢ <;> first | exact hv | exact key hv
+
+/-! ### `_positive_string` -/
+
+theorem natKw_of_lenKw {kvs k o} (h : lenKw? kvs k = some o) : natKw kvs k = o := by
+  unfold lenKw? getK at h
+  unfold natKw
+  cases hl : Json.lookup k kvs with
+  | none => simp [hl] at h; exact h
+  | some j =>
+    cases j <;> simp [hl] at h ⊢
+    · exact h
+    · rename_i m e
+      cases e with
+      | zero =>
+        simp at h ⊢
+        simp [h.1]; exact h.2
+      | succ e' => simp at h
+
+theorem natKw_setKey_eq (k : String) (n : Nat) (kvs) : natKw (setKey k (jnat n) kvs) k = some n := by
+  unfold natKw; rw [lookup_setKey_eq]; simp [jnat]
+
+theorem natKw_setKey_ne (k k' : String) (v : Json) (kvs) (h : k' ≠ k) : natKw (setKey k v kvs) k' = natKw kvs k' := by
+  unfold natKw; rw [lookup_setKey_ne k k' v kvs h]
+
+/-- the string-length bounds a valid string meets -/
+theorem lenBounds_of_valid {fuel env kvs s} (hoas : env.oas = Oas.none) (href : Json.lookup "$ref" kvs = none)
+    (h : validF (fuel + 1) env (.obj kvs) (.str s) = true) : lenBoundsOk kvs "minLength" "maxLength" s.length = true := by
+  simp only [validF, href, isNullable_none hoas, Bool.false_and, Bool.false_eq_true, if_false, keywordsOk, stringOk,
+    Bool.and_eq_true] at h
+  exact h.1.1.1.1.2.1
+
+abbrev StrP (fuel : Nat) (env : Env) (kvs : List (String × Json)) : GV → Prop :=
+  fun gv => labelOk (fuel + 1) env (.obj kvs) gv = true
+
+/-- one derived request of `_positive_string` -/
+theorem sound_askDerived {fuel env kvs kvs' d} (hoas : env.oas = Oas.none) (href : Json.lookup "$ref" kvs = none)
+    (hs : SameExcept ["minLength", "maxLength"] kvs kvs')
+    (hlen : ∀ n, lenBoundsOk kvs' "minLength" "maxLength" n = true → lenBoundsOk kvs "minLength" "maxLength" n = true) :
+    Sound (StrP fuel env kvs) (callSound (fuel + 1) env) (askSchema (.obj kvs') d) := by
+  unfold askSchema
+  apply sound_ask; intro j hj
+  apply sound_emit; intro gv hg
+  simp only [List.mem_cons, List.mem_nil_iff, or_false] at hg; subst hg
+  simp only [callSound] at hj
+  have href' : Json.lookup "$ref" kvs' = none := by rw [hs "$ref" (by decide)]; exact href
+  have : validF (fuel + 1) env (.obj kvs) j = true := by
+    apply validF_of_lengths hoas hs hj
+    intro s hsj; subst hsj
+    exact hlen _ (lenBounds_of_valid hoas href' hj)
+  simp [StrP, labelOk, GV.pos, this]
+
+theorem lenBoundsOk_iff (kvs : List (String × Json)) (n : Nat) :
+    lenBoundsOk kvs "minLength" "maxLength" n = true ↔
+      (∀ a, natKw kvs "minLength" = some a → a ≤ n) ∧ (∀ b, natKw kvs "maxLength" = some b → n ≤ b) := by
+  unfold lenBoundsOk
+  cases natKw kvs "minLength" <;> cases natKw kvs "maxLength" <;> simp
+
+theorem same_max (kvs) (b : Nat) : SameExcept ["minLength", "maxLength"] kvs (setKey "maxLength" (jnat b) kvs) :=
+  sameExcept_setKey (sameExcept_refl _ _) (by decide)
+theorem same_min (kvs) (a : Nat) : SameExcept ["minLength", "maxLength"] kvs (setKey "minLength" (jnat a) kvs) :=
+  sameExcept_setKey (sameExcept_refl _ _) (by decide)
+theorem same_both (kvs) (a b : Nat) :
+    SameExcept ["minLength", "maxLength"] kvs (setKey "maxLength" (jnat b) (setKey "minLength" (jnat a) kvs)) :=
+  sameExcept_setKey (same_min kvs a) (by decide)
+
+theorem sound_ite_nil {P C} {c : Bool} {a : Gen} (h : c = true → Sound P C a) :
+    Sound P C (if c = true then a else Gen.nil) := by
+  by_cases hc : c = true
+  · simp only [hc, if_true]; exact h hc
+  · simp only [hc, if_false]; exact sound_nil
+
+/-- `_positive_string` on a schema whose length bounds do not cross: every non-exempt value conforms -/
+theorem positive_string_sound (fuel : Nat) (env : Env) (hoas : env.oas = Oas.none) (ctx : Ctx)
+    (kvs : List (String × Json)) (mn0 mx : Option Nat) (href : Json.lookup "$ref" kvs = none)
+    (hmn : lenKw? kvs "minLength" = some mn0) (hmx : lenKw? kvs "maxLength" = some mx)
+    (hsat : ∀ a b, mn0 = some a → mx = some b → a ≤ b) :
+    Sound (StrP fuel env kvs) (callSound (fuel + 1) env) (positiveString ctx kvs) := by
+  have nmin : natKw kvs "minLength" = mn0 := natKw_of_lenKw hmn
+  have nmax : natKw kvs "maxLength" = mx := natKw_of_lenKw hmx
+  have hdirect : ∀ d, Sound (StrP fuel env kvs) (callSound (fuel + 1) env) (askSchema (.obj kvs) d) := by
+    intro d
+    exact sound_askDerived hoas href (sameExcept_refl _ _) (fun n h => h)
+  unfold positiveString
+  simp only [hmn, hmx]
+  -- normalise `min_length == 0 -> None`
+  have hnorm : ((if mn0 == some 0 then none else mn0) = none ∧ (mn0 = none ∨ mn0 = some 0)) ∨
+      ∃ m, (if mn0 == some 0 then none else mn0) = some m ∧ mn0 = some m ∧ m ≠ 0 := by
+    cases mn0 with
+    | none => left; simp
+    | some a =>
+      by_cases ha : a = 0
+      · subst ha; left; simp
+      · right; exact ⟨a, by simp [ha], rfl, ha⟩
+  have hpro : ∀ mn : Option Nat, Sound (StrP fuel env kvs) (callSound (fuel + 1) env)
+      (if hasExamples kvs then
+        (match examplePrologue kvs (locOk ctx) with
+         | none => Gen.unsupported
+         | some gvs => Gen.emit gvs)
+      else if mn.isNone && isNoneOrZero mx then askSchema (.obj kvs) .validString
+      else if hasKey kvs "pattern" then askSchema (.obj kvs) .validString
+      else Gen.nil) := by
+    intro mn
+    by_cases he : hasExamples kvs = true
+    · simp only [he, if_true]
+      cases hpro : examplePrologue kvs (locOk ctx) with
+      | none => exact sound_unsupported
+      | some gvs =>
+        apply sound_emit; intro gv hg
+        exact labelOk_of_exempt (examplePrologue_exempt hpro hg)
+    · simp only [he, Bool.false_eq_true, if_false]
+      by_cases h1 : (mn.isNone && isNoneOrZero mx) = true
+      · simp only [h1, if_true]; exact hdirect _
+      · simp only [h1, Bool.false_eq_true, if_false]
+        by_cases h2 : hasKey kvs "pattern" = true
+        · simp only [h2, if_true]; exact hdirect _
+        · simp only [h2, Bool.false_eq_true, if_false]; exact sound_nil
+  -- the "Maximum length" / near-boundary requests of the upper block, whatever the local `seen` set is
+  have hupper : ∀ (mn : Option Nat) (seen : List Nat), (mn = none ∧ (mn0 = none ∨ mn0 = some 0)) ∨ (∃ m, mn = some m ∧ mn0 = some m ∧ m ≠ 0) →
+      Sound (StrP fuel env kvs) (callSound (fuel + 1) env) (strUpper kvs mn mx seen) := by
+    intro mn seen hmnc
+    unfold strUpper
+    cases hM : mx with
+    | none => exact sound_nil
+    | some M =>
+      simp only
+      apply sound_seq
+      · by_cases hc : (decide (M < BUFFER) && !(seen.contains M)) = true
+        · simp only [hc, if_true]
+          apply sound_askDerived hoas href (same_min kvs M)
+          intro n h
+          rw [lenBoundsOk_iff] at h ⊢
+          rw [natKw_setKey_eq, natKw_setKey_ne _ _ _ _ (by decide), nmax, hM] at h
+          rw [nmin, nmax, hM]
+          have h1 := h.1 M rfl
+          have h2 := h.2 M rfl
+          refine ⟨fun a ha => ?_, fun b hb => by cases hb; exact h2⟩
+          have := hsat a M ha hM; omega
+        · simp only [hc, Bool.false_eq_true, if_false]; exact sound_nil
+      · cases M with
+        | zero => exact sound_nil
+        | succ s =>
+          simp only
+          apply sound_ite_nil; intro hcond
+          · apply sound_askDerived hoas href (same_both kvs s s)
+            intro n h
+            rw [lenBoundsOk_iff] at h ⊢
+            rw [natKw_setKey_eq, natKw_setKey_ne _ _ _ _ (by decide), natKw_setKey_eq] at h
+            rw [nmin, nmax, hM]
+            have h1 := h.1 s rfl
+            have h2 := h.2 s rfl
+            refine ⟨fun a ha => ?_, fun b hb => by cases hb; omega⟩
+            simp only [Bool.and_eq_true, decide_eq_true_eq] at hcond
+            have hge := hcond.2
+            rcases hmnc with ⟨hn, hz⟩ | ⟨m, hm, hm0, _⟩
+            · rcases hz with hz | hz
+              · rw [hz] at ha; cases ha
+              · rw [hz] at ha; cases ha; omega
+            · subst hm
+              rw [hm0] at ha; cases ha
+              simp only [decide_eq_true_eq] at hge; omega
+  apply sound_seq (hpro _)
+  rcases hnorm with ⟨hn, hz⟩ | ⟨m, hm, hm0, hmne⟩
+  · rw [hn]
+    apply sound_seq
+    · simp only [strLower]; exact sound_nil
+    · exact hupper none _ (Or.inl ⟨rfl, hz⟩)
+  · rw [hm]
+    apply sound_seq
+    · simp only [strLower]
+      by_cases hb : m < BUFFER
+      · simp only [hb, if_true]
+        apply sound_seq
+        · apply sound_askDerived hoas href (same_max kvs m)
+          intro n h
+          rw [lenBoundsOk_iff] at h ⊢
+          rw [natKw_setKey_ne _ _ _ _ (by decide), natKw_setKey_eq, nmin] at h
+          rw [nmin, nmax]
+          have h1 := h.1 m hm0
+          have h2 := h.2 m rfl
+          refine ⟨fun a ha => by rw [hm0] at ha; cases ha; exact h1, fun b hb' => ?_⟩
+          have := hsat m b hm0 hb'; omega
+        · apply sound_ite_nil; intro hcond
+          · apply sound_askDerived hoas href (same_both kvs (m + 1) (m + 1))
+            intro n h
+            rw [lenBoundsOk_iff] at h ⊢
+            rw [natKw_setKey_eq, natKw_setKey_ne _ _ _ _ (by decide), natKw_setKey_eq] at h
+            rw [nmin, nmax]
+            have h1 := h.1 (m + 1) rfl
+            have h2 := h.2 (m + 1) rfl
+            refine ⟨fun a ha => by rw [hm0] at ha; cases ha; omega, fun b hb' => ?_⟩
+            subst hb'
+            have hs := hsat m b hm0 rfl
+            simp only [Bool.and_eq_true, Bool.or_eq_true, decide_eq_true_eq] at hcond
+            rcases hcond.2 with hc | hc
+            · simp [isNoneOrZero] at hc; omega
+            · simp [leOptNat] at hc; omega
+      · simp only [hb, if_false]; exact sound_nil
+    · exact hupper (some m) _ (Or.inr ⟨m, rfl, hm0, hmne⟩)
+
 end SV.Proofs.C03
